@@ -75,6 +75,9 @@ def parseOp (t : String) : Option Op :=
     if c = 0 then none else pure (.raise c)
   | ["bg"] => some .bg
   | ["yield"] => some .yield
+  | ["pl"] => some .pl
+  | ["cs"] => some .cs
+  | ["hd"] => some .hd
   | ["nofile", v] => do guardIn v LIMITS; pure (.nofile (if v == "unlimited" then none else v.toNat?))
   | ["exit", n] => do guardIn n ["0", "3", "7"]; pure (.exit (← n.toNat?))
   | _ => none
@@ -125,19 +128,28 @@ def parseItems : List String → Case → Option Case
         parseItems rest { c with kinds := c.kinds ++ [k] }
       | "P" => do
         let op ← parseOp body
-        if isExit op ∨ op = .yield then none else parseItems rest { c with pro := c.pro ++ [op] }
+        if isExit op ∨ op = .yield ∨ op = .pl ∨ op = .cs ∨ op = .hd then none else parseItems rest { c with pro := c.pro ++ [op] }
       | "M" => do
         let op ← parseOp body
-        if isSilent op ∧ op ≠ .yield then parseItems rest { c with mid := setMid c.mid 0 op } else none
+        if isSilent op ∧ op ≠ .yield ∧ op ≠ .pl ∧ op ≠ .cs ∧ op ≠ .hd then parseItems rest { c with mid := setMid c.mid 0 op } else none
       | "N" => do
         let op ← parseOp body
-        if isSilent op ∧ op ≠ .yield then parseItems rest { c with mid := setMid c.mid 1 op } else none
-      | "C" => do
+        if isSilent op ∧ op ≠ .yield ∧ op ≠ .pl ∧ op ≠ .cs ∧ op ≠ .hd then parseItems rest { c with mid := setMid c.mid 1 op } else none
+      | "C" => do parseItems rest { c with child := c.child ++ [← parseOp body] }
+      | "A" => do
+        -- mutators of the FIRST member of the innermost pipeline (kind `pipeL`): another process, living at the same
+        -- time as the child; nothing it does is visible anywhere (its output goes to `:`), so the model only records
+        -- that there is one
         let op ← parseOp body
-        if op = .yield then none else parseItems rest { c with child := c.child ++ [op] }
+        let ok := match op with
+          | .set _ _ | .export _ _ | .fn _ _ | .alias _ _ | .umask _ | .cd _ | .yield => true
+          | .trap c _ => c ≠ 0
+          | .fdw n _ => n ≠ 20 ∧ n ≠ 10
+          | _ => false
+        if ok then parseItems rest { c with first := c.first ++ [op] } else none
       | "W" => do
         let op ← parseOp body
-        if isSilent op ∧ op ≠ .bg then parseItems rest { c with during := c.during ++ [op] } else none
+        if isSilent op ∧ op ≠ .bg ∧ op ≠ .pl ∧ op ≠ .cs ∧ op ≠ .hd then parseItems rest { c with during := c.during ++ [op] } else none
       | _ => none
     | _ => none
 
@@ -145,6 +157,7 @@ def parseCase (line : String) : Option Case := do
   let c ← parseItems ((splitTrim line ";").filter (· ≠ "")) { pro := [], kinds := [], child := [], during := [] }
   if c.kinds.isEmpty ∨ c.kinds.length > 3 then none
   else if ¬ c.during.isEmpty ∧ c.kinds.head? ≠ some .async then none
+  else if ¬ c.first.isEmpty ∧ c.kinds.getLast? ≠ some .pipeL then none
   else if ¬ (c.mid.headD []).isEmpty ∧ c.kinds.length < 2 then none
   else if ¬ ((c.mid.drop 1).headD []).isEmpty ∧ c.kinds.length < 3 then none
   else some c
